@@ -192,9 +192,12 @@ class AbsWalk:
                 return True
         return False
 
-    def run(self, start_block=None, on_exit=None):
+    def run(self, start_block=None, on_exit=None, stop_at=()):
+        """stop_at: blocks at which a path ends when *entered through an edge* (e.g. the target of a
+        back edge, to walk exactly one step of a cascade)."""
         cfg = self.cfg
         start = cfg.entry if start_block is None else start_block
+        stop_at = set(stop_at)
         work = [(start, dict(self.init))]
         while work:
             b, store = work.pop()
@@ -249,5 +252,11 @@ class AbsWalk:
                         continue
                     if upd:
                         st.update(upd)
+                if s in stop_at:
+                    st["$stopped_at"] = s
+                    self.exit_stores.append(st)
+                    if on_exit:
+                        on_exit(st)
+                    continue
                 work.append((s, st))
         return self
